@@ -17,12 +17,13 @@ NOT_DECIDED = "that the returned cells tile the domain exactly once (follows fro
 TRUSTED = ("CPython ast", "list model of np.arange/argwhere/ravel/max")
 TECHNIQUE = "static analysis: key-domain (dead guard) propagation, def-use of the level cap, finite-case folding"
 
+from . import loader_folds as lfold
+
 
 def r1_r2(run, tree):
-    run.rule("C12.R1", "level cap live and stored (key domain, reachability, data flow)", "key-domain propagation", "", floor=4)
-    lr.check_level_cap_live(run, tree)
-    lr.check_lmax_reset(run, tree)
-    io.check_skeleton(run, tree)
+    run.rule("C12.R1", "level cap live: computed from the mesh predicates before the readers are initialised, bounds the level loop, "
+             "absent without a level predicate, rebuilt on every load", "D7 fold of Loader.load over recording readers on 9 scenarios + a two-load history, compared with the traversal specification", "", floor=10)
+    lfold.check_load(run, tree)
 
 
 def r2_leaf(run, tree):
